@@ -1289,7 +1289,10 @@ func (client *client) disconnectHandler(dis *packets.Disconnect) *codes.Error {
 	}
 	client.disconnect = dis
 	// 不发送will message
-	client.cleanWillFlag = true
+	// A v5 client can ask for its will to be published with reason code 0x04 (Disconnect with Will Message).
+	if !(client.version == packets.Version5 && dis.Code == codes.DisconnectWithWillMessage) {
+		client.cleanWillFlag = true
+	}
 	return nil
 }
 
